@@ -19,19 +19,19 @@ TABLE: dict[str, dict[str, str]] = {
     "C02": dict(cat="other", tech="grammar-parsed print templates pushed through the compiler's form model (writer/reader agreement) + dispatch exhaustiveness + edge-attribute conventions + entry preservation; round trip compile -> decompile -> compile with every stage interpreted (parser runtime, graph library and file system modelled) over general, nested and flat program families, flow graphs compared by bisimulation",
                 text="Decides necessary conditions only: every special opcode is printed in a spelling that compiles back to the same op with equal parameters, dispatch tables are exhaustive, producer/consumer conventions of edge attributes agree, the routine entry vertex is never deleted. The structuring heuristics themselves are not decided. R7 decides behaviour preservation for the enumerated program shapes (all test outcomes); three inputs are recorded as known findings.",
                 note="Same trusted base as C01; the 1 600 lines of graph rewriting are outside any sound static argument in reach.", ref="§4 C02"),
-    "C03": dict(cat="other", tech="type-flow and who-may-write rules on the op list (no pseudo-op survives, target appended last, offset sources, table lengths)",
+    "C03": dict(cat="other", tech="type-flow and who-may-write rules on the op list (no pseudo-op survives, target appended last, offset sources, table lengths); compile() interpreted on program families and macro projects: offsets unique, jump targets closed, no pseudo op, tables of one length",
                 text="Decides the structural half of every clause of C03 for all programs: only real ops reach routine_ops, the jump target is appended last and agrees with the decompiler's index table, every offset comes from the monotone counter or replaces an op one-for-one, label offsets denote surviving ops, the three routine tables grow together. Not decided: raw user-written jump opcodes.",
                 note="CPython ast; folded tables of ssb_special_ops.", ref="§4 C03"),
     "C04": dict(cat="other", tech="escape/unescape table agreement, quoted-hole escaping, numeral-shape vs. token-language inclusion, parameter-type exhaustiveness; print -> parse identity with printers and readers interpreted on a table of values built from the character classes the printers distinguish, in three printing contexts and several depths",
                 text="Decides the table-level half of print/parse identity: escape pairs of printer and reader, escaping of every quoted interpolation, that printed numerals are tokens of the grammar, that every parameter type has a printer and a parse path, integer base handling. Value-dependent parts (multi-line dedent arithmetic) are not decided. R7 evaluates the value table; other values are covered by the table-level rules.",
                 note="re._parser for regexes built from the .g4 token rules.", ref="§4 C04"),
-    "C05": dict(cat="other", tech="def-use/typestate rules on ExplorerScriptMacro.build (fresh labels, return->jump-to-end, parameter substitution), call binding, import resolution order, dependency-order rule",
+    "C05": dict(cat="other", tech="def-use/typestate rules on ExplorerScriptMacro.build (fresh labels, return->jump-to-end, parameter substitution), call binding, import resolution order, dependency-order rule; compile() interpreted on multi-file macro projects (virtual files) against hand-inlined programs by bisimulation; meaningless projects rejected",
                 text="Decides the expansion template of build(), the binding of arguments to macro variables, the import search order and the recursion guard, and that the macro order is produced by a topological sort of the dependency graph. Behaviour of expanded ops inherits C01's limits.",
                 note="igraph.Graph.topological_sorting is trusted to return a topological order.", ref="§4 C05"),
     "C06": dict(cat="other", tech="raise-set inference over the resolved call graph vs. the fallback handler; marker writer/reader agreement; backup-before-mutation dominance; round trip with every stage interpreted: convert() returns for every program of the families, fallback text reproduces the ops one for one; resolver totality (end-of-table guard), handler-bound names, fresh collectors of the fallback reader",
                 text="Decides that no exception class raised under convert()'s try escapes its handler, that the fallback prefix is recognised by parse_exps_meta_attributes with an accepted value, and that the raw ops are backed up before any pass touches them. Exactness of the fallback text is C07.",
                 note="Library callee summaries (open/int/next/list.index ...) are hand-written.", ref="§4 C06"),
-    "C07": dict(cat="other", tech="grammar-parsed SsbScript print templates vs. the listener's reading (writer/reader agreement), jump-argument position, label binding, order preservation",
+    "C07": dict(cat="other", tech="grammar-parsed SsbScript print templates vs. the listener's reading (writer/reader agreement), jump-argument position, label binding, order preservation; SsbScript decompiler and compiler interpreted on hand-made routine sets and compiled families (op for op)",
                 text="Decides that every SsbScript print template parses under SsbScript.g4 and is read back by the listener into the same opcode/parameters/routine kind, that the jump marker is printed and consumed as the last argument, that labels bind to the next op, and that neither side reorders. String values are C04.",
                 note="Grammar reader; listener methods read as ast.", ref="§4 C07"),
     "C08": dict(cat="other", tech="must-follow registration rule per op construction site, position-expression shape rule, return-address counting rule; whole compiler interpreted on laid-out sample programs: every emitted op has an entry at the line/column where its statement, condition, switch or case header begins",
@@ -43,7 +43,7 @@ TABLE: dict[str, dict[str, str]] = {
     "C10": dict(cat="other", tech="raise-set inference over the resolved call graph vs. the documented exception classes; presence table of documented rejections; stack pairing; parse-listener guard; whole compiler interpreted on the meaningless and degenerate program shapes of the specification (rejected with a documented error, nothing else escapes); counter-indexed loop conditions are bounded",
                 text="Decides that no explicitly raised exception class other than ParseError/SsbCompilerError/ValueError can leave compile(), that every documented rejection has its raise site, that loop/case stacks are paired, and two named implicit-exception patterns. Implicit exceptions in general are not decided.",
                 note="Narrowing asserts (is not None / isinstance) are assumed not to fire.", ref="§4 C10"),
-    "C11": dict(cat="other", tech="shared-state inventory (who-may-write), reset-before-use on compile(), input non-mutation, memo-clear typestate",
+    "C11": dict(cat="other", tech="shared-state inventory (who-may-write), reset-before-use on compile(), input non-mutation, memo-clear typestate; call histories evaluated in one interpreter instance against a fresh one",
                 text="Decides that the only run-time written shared cells are the audited ones, that class-level mutable defaults are shadowed per instance, that compile() resets its result attributes before anything can raise, and that decompilation writes to its input only through the audited indent cell.",
                 note="Process restarts, GC timing and igraph internals are outside.", ref="§4 C11"),
     "C12": dict(cat="other", tech="confinement: shared-state inventory + memo keyed by a call-local graph object",
@@ -52,10 +52,10 @@ TABLE: dict[str, dict[str, str]] = {
     "C13": dict(cat="other", tech="data-dependence rule on the join search (traversal liveness) + marker producer/consumer agreement; flat programs (singles, ordered pairs; triples in the thorough tier) taken through compile -> decompile with every stage interpreted: ExplorerScript without jump, each operation once; typestate of jump roots across passes; stale edge ids; memo discipline",
                 text="Decides necessary conditions only: the common-next-vertex search advances along the graph's adjacency, and every end marker a pass attaches has a writer-side consumer that stops on the same id. Completeness of the structuring heuristics is not decided. R6 decides the property for the enumerated flat shapes (832 quick / 8 608 thorough), not for all flat programs.",
                 note="CPython ast.", ref="§4 C13"),
-    "C14": dict(cat="other", tech="sibling/writer-reader field agreement on serialize/deserialize/__init__, equality coverage, shape rule on rewrite_offsets",
+    "C14": dict(cat="other", tech="sibling/writer-reader field agreement on serialize/deserialize/__init__, equality coverage, shape rule on rewrite_offsets; serialize/deserialize/rewrite_offsets interpreted on maps of an interpreted macro project under nine offset mappings",
                 text="Decides for all maps: field order and JSON keys agree between writer and reader, int keys and tuples are restored, SourceMap.__eq__ compares value-comparable entries, rewrite_offsets rebuilds both tables through the mapping and moves return addresses forward to the next surviving op.",
                 note="CPython ast; json module semantics (arrays come back as lists, keys as strings).", ref="§4 C14"),
-    "C15": dict(cat="other", tech="tag-table agreement compile CLI / decompile CLI / docs, offset-renumbering rule, coroutine-id rule, docs example types vs. reader operations, exit paths",
+    "C15": dict(cat="other", tech="tag-table agreement compile CLI / decompile CLI / docs, offset-renumbering rule, coroutine-id rule, docs example types vs. reader operations, exit paths; build_routines_json/read_routines interpreted on compiled programs",
                 text="Decides that the type tags and keys written by the compile CLI equal those read by the decompile CLI and those documented, that jump parameters are translated to list positions, that coroutine names are registered under their routine index, that documented JSON leaf types are accepted, and that no error path exits with status 0.",
                 note="reST reader for docs/cli_api_usage.rst.", ref="§4 C15"),
     "C16": dict(cat="other", tech="grammar facts (skip channel, lexer order, alternative spellings) + position taint in the compiler + spelling tables; re-spellings of a base program compiled with the whole compiler interpreted: identical ops, routine table, marks",
